@@ -139,9 +139,16 @@ def showRec (ids : List (Option Nat)) (r : Rec) : String :=
   String.intercalate "," ([showRes r.res] ++ r.effects.map (showEff ids) ++ r.events.map (showEv ids) ++
     (match r.done with | some true => ["done"] | some false => ["live"] | none => []))
 
+/-- Core host: the harness stops using the core once a task panicked inside a core call; every later record is `dead`.
+    (The model goes on per timer; the case is cut after the panic, which is a case of its own for the theorems.) -/
+def cutAfterPanic : List Rec → List Rec
+  | [] => []
+  | r :: rest => if r.res == .panic then { res := .panic } :: rest.map (fun _ => { res := .dead }) else r :: cutAfterPanic rest
+
 def runTyped : TCase → List (Option Nat) × List Rec
   | .command host ts steps =>
-    (ts.map (some ·.id), (steps.zip (wrun host ts steps)).map fun s => mergeRec host s.1.1 s.1.2 s.2)
+    let recs := (steps.zip (wrun host ts steps)).map fun s => mergeRec host s.1.1 s.1.2 s.2
+    (ts.map (some ·.id), if host == .core then cutAfterPanic recs else recs)
   | .legacy kinds steps =>
     let w := mkLWorld baseCounter kinds
     ((lfinal w steps).timers.map (·.id),
@@ -216,6 +223,12 @@ def oracle (line : String) : String :=
         | none => "reject unparseable-observation"
         | some (idsOk, recs) =>
           if recs.length != steps.length then "reject malformed-observation" else
+          -- core host: the case ends with the first panic record; what follows must be `dead` and nothing else
+          let cut := if host == .core then (recs.findIdx (·.res == .panic)) + 1 else recs.length
+          if !((recs.drop cut).all fun r => r.res == .dead && r.effects.isEmpty && r.events.isEmpty) then
+            "reject malformed-observation" else
+          let steps := steps.take cut
+          let recs := recs.take cut
           match (steps.zip recs).mapM fun s => splitRec ids s.1.2 s.2 with
           | none => "reject foreign-id"
           | some outs =>
